@@ -475,6 +475,47 @@ def same_outcome(io, mo):
     return False
 
 
+def corr_parse(ctx, res, stmts, norms=(False, True), label="D:parse"):
+    """correspondence layer D: value returned by yacc.parse for a statement vs Model.parse_statement.
+    Unsupported model answers are counted, never compared."""
+    stmts = sorted(set(s for s in stmts if s))
+    for norm in norms:
+        I = ctx.impl.map([{"op": "trace", "s": s, "ctor": {"normalize_names": norm}} for s in stmts])
+        M = ctx.model.map([("parse", ["1" if norm else "0", "1", s]) for s in stmts])
+        for s, i, m in zip(stmts, I, M):
+            mo = model_outcome(m)
+            if mo[0] == "unsupported":
+                res.corr[label + ":unsupported"] = res.corr.get(label + ":unsupported", 0) + 1
+                continue
+            io = impl_outcome(i)
+            if io[0] == "ok":
+                iv = io[1]["result"]
+                good = mo[0] == "ok" and (("value" in mo[1] and iv is not None and canon_impl(iv) == canon_model(mo[1]["value"]))
+                                          or ("none" in mo[1] and iv is None))
+            else:
+                good = mo[0] == "raise" and mo[1] == io[1]
+            res.corr[label] = res.corr.get(label, 0) + 1
+            if not good:
+                res.violation("correspondence", "Model.parse_statement and yacc.parse disagree on a statement", tie=True,
+                              layer="correspondence D (actions)", stmt=s, norm=norm, oracle="corr_parse")
+
+
+def corr_run(ctx, res, texts, label="F:run"):
+    """correspondence layer F: DDLParser(text).run(group_by_type=True) vs Model Api.run (mode sql)"""
+    texts = sorted(set(texts))
+    I = ctx.impl.map([{"op": "run", "ddl": t, "run": {"group_by_type": True}} for t in texts])
+    M = ctx.model.map([("run", ["0", "1", "sql", "1", "0", escaped(t)]) for t in texts])
+    for t, i, m in zip(texts, I, M):
+        mo = model_outcome(m)
+        if mo[0] == "unsupported":
+            res.corr[label + ":unsupported"] = res.corr.get(label + ":unsupported", 0) + 1
+            continue
+        res.corr[label] = res.corr.get(label, 0) + 1
+        if not same_outcome(impl_outcome(i), mo):
+            res.violation("correspondence", "model Api.run and DDLParser.run disagree", tie=True, layer="correspondence F (run)", ddl=t,
+                          oracle="corr_run")
+
+
 def escaped(ddl):
     """self.data as the model receives it: what Parser.__init__ stores, decoded"""
     return ddl.replace("\r\n", "\n").encode("unicode_escape").decode("utf-8")
